@@ -64,6 +64,24 @@ func runC19(c *Ctx) {
 		return normPhi(tb.T(arg).String()), call, loop
 	}
 
+	c.Group("R-C19-ADDHAS", "Bloom.Add#always", func() {
+		// Add sets its bits for EVERY hash on every call: the only way out of Add is the exhaustion of the
+		// location loop (no "already added" shortcut keyed on the hash value - 0 is a valid hash)
+		fn := P.Fn("z", "Bloom", "Add")
+		tb := newTB(fn)
+		var exit map[Edge]bool
+		for _, b := range fn.Blocks {
+			if iff := lastIf(b); iff != nil && condPolarity(tb.T(iff.Cond), "lt(_,fld[setLocs](p[0]))", nil) != 0 {
+				exit = edgesWhere(fn, tb, tb.T(iff.Cond).String(), nil, false)
+			}
+		}
+		if len(exit) == 0 {
+			L.Fail("R-C19-ADDHAS", "Bloom.Add#always", "Add has no loop over the setLocs locations", fn.Pos())
+			return
+		}
+		bad, path := reach(entryPos(fn), isReturn, nil, cutSet(exit))
+		L.Check(bad == nil, "R-C19-ADDHAS", "Bloom.Add#always", "Add returns only after the loop over all setLocs locations", "Add can return without setting the hash's bits (block path "+pathString(path)+"): Has is false right after Add for such a hash", instrPos(bad))
+	})
 	c.Group("R-C19-ADDHAS", "Bloom.Add/Has", func() {
 		add := P.Fn("z", "Bloom", "Add")
 		has := P.Fn("z", "Bloom", "Has")
@@ -475,6 +493,34 @@ func runC19(c *Ctx) {
 		})
 		L.Check(okLen && okLocs && okByte, "R-C19-JSON", "JSONMarshal", "exports len(bitset)<<3 bytes, byte i = *(&bitset[0]+i), and setLocs",
 			fmt.Sprintf("export is wrong (length len(bitset)<<3:%v setLocs:%v byte i from &bitset[0]+i:%v)", okLen, okLocs, okByte), fn.Pos())
+	})
+	c.Group("R-C19-JSON", "JSONUnmarshal#accepts", func() {
+		// whatever JSONMarshal wrote is accepted: JSONUnmarshal fails only with json.Unmarshal's own error
+		// (no extra validation that NewBloomFilter/JSONMarshal do not share, e.g. a cap on SetLocs)
+		fn := P.Fn("z", "", "JSONUnmarshal")
+		L.Analysed(fname(fn))
+		tb := newTB(fn)
+		var um *ssa.Call
+		for _, ci := range callsTo(fn, "json.Unmarshal") {
+			um, _ = ci.(*ssa.Call)
+		}
+		if um == nil {
+			L.Undecided("R-C19-JSON", "JSONUnmarshal#accepts", "no json.Unmarshal call", fn.Pos())
+			return
+		}
+		var bad []string
+		var pos token.Pos
+		for _, r := range returnsOf(fn) {
+			rv := returnValues(r)
+			if len(rv) != 2 || isConst(rv[1], "nil") {
+				continue
+			}
+			if tb.T(rv[1]).String() != tb.T(um).String() {
+				bad = append(bad, tb.T(rv[1]).String())
+				pos = r.Pos()
+			}
+		}
+		L.Check(len(bad) == 0, "R-C19-JSON", "JSONUnmarshal#accepts", "the only error returned is json.Unmarshal's", "JSONUnmarshal rejects input for a reason of its own ("+strings.Join(bad, "; ")+"): a filter JSONMarshal exported (any number of hash locations NewBloomFilter accepts) does not survive the round trip", pos)
 	})
 	c.Group("R-C19-JSON", "newWithBoolset", func() {
 		fn := P.Fn("z", "", "newWithBoolset")
